@@ -208,8 +208,8 @@ def attribute(E, e):
     if d is not None and d in E.c.externals and E.c.externals[d].get("ghost_value"):
         return st.vars[E.c.externals[d]["ghost_value"]]  # a property of an un-modelled object, represented by a ghost parameter
     if d is not None and d in E.c.externals and E.c.externals[d].get("attr"):
-        # an (effectful) property of an un-modelled object: evaluated like a call without arguments
-        return external_call(E, d, E.c.externals[d], e, None, [], {})
+        # an (effectful) property of an un-modelled object: evaluated like a call without arguments (recv_arg: a function of the receiver)
+        return external_call(E, d, E.c.externals[d], e, None, [E.ev(e.value)] if E.c.externals[d].get("recv_arg") else [], {})
     if d is not None and d in E.c.externals and _root(e).id not in st.vars:
         return V("fn", None, items=("external", d, None, None, None), py=d)
     if d is not None and d in E.c.d.get("consts", {}) and _root(e).id not in st.vars:
@@ -794,8 +794,12 @@ def with_stmt(E, n):
         if ext is None and isinstance(item.context_expr, ast.Call) and isinstance(item.context_expr.func, ast.Attribute):
             ext = E.c.externals.get("*." + item.context_expr.func.attr)  # context manager of an untyped object, declared by method name
         if ext is not None and ext.get("with") == "transparent":
+            if ext.get("event") or ext.get("outcomes"):
+                val = external_call(E, d, ext, item.context_expr)  # entering the context is an observable external call (event / outcomes)
+            else:
+                val = E.symbolic("ctx", parse_type(ext.get("returns", "any")))
             if item.optional_vars is not None:
-                E.assign(item.optional_vars, E.symbolic("ctx", parse_type(ext.get("returns", "any"))))
+                E.assign(item.optional_vars, val)
             continue
         cm = E.ev(item.context_expr)
         if isinstance(cm.ty, tuple) and cm.ty[0] == "obj":
@@ -866,6 +870,8 @@ def iterator(E, it):
         return z3.IntVal(0), n, el
     if isinstance(t, tuple) and t[0] == "tuple":
         raise OutOfSubset("iteration over tuple with invariant (unroll instead)")
+    if isinstance(t, tuple) and t[0] == "obj":
+        return obj_iter(E, v)
     if isinstance(t, tuple) and t[0] == "dict":
         return dict_iter(E, v, "keys")
     if t == "any":
@@ -874,6 +880,32 @@ def iterator(E, it):
         st.pc.append(n >= 0)
         return z3.IntVal(0), n, lambda i, v=v: any_item(E, v, vint(i))
     raise OutOfSubset(f"iteration over {t}")
+
+
+def obj_iter(E, v):
+    """iteration over an object whose class defines `def __iter__(self): return iter(<list expression>)`; for a union type the path forks on the class"""
+    classes = v.ty[1].split("|")
+    if len(classes) > 1:
+        k = z3.Function("kind", I, I)(v.z)
+        idx = E.choose([k == atom("kind:" + E.kind_name(("obj", c_))) for c_ in classes])
+        v = V(("obj", classes[idx]), v.z)
+    r = resolve_method(E, v.ty[1], "__iter__")
+    if r is None:
+        raise OutOfSubset(f"iteration over {v.ty[1]} without __iter__")
+    m, c, fn = r
+    body = [s_ for s_ in fn.body if not (isinstance(s_, ast.Expr) and isinstance(s_.value, ast.Constant))]
+    if not (len(body) == 1 and isinstance(body[0], ast.Return) and isinstance(body[0].value, ast.Call) and dotted(body[0].value.func) == "iter" and len(body[0].value.args) == 1):
+        raise OutOfSubset(f"{c}.__iter__ is not of the form `return iter(<expr>)`")
+    saved = E.st.vars, E.cur_mod
+    E.st.vars, E.cur_mod = dict(E.st.vars, self=v), m
+    try:
+        lst = E.ev(body[0].value.args[0])
+    finally:
+        E.st.vars, E.cur_mod = saved
+    if not (isinstance(E.full_ty(lst), tuple) and E.full_ty(lst)[0] == "list"):
+        raise OutOfSubset(f"{c}.__iter__ iterates over {E.full_ty(lst)}")
+    n = E.len_of(lst)
+    return z3.IntVal(0), n, lambda i, lst=lst: E.list_get(lst, i, check=False)
 
 
 def dict_keys_list(E, d):
@@ -1061,7 +1093,7 @@ def call(E, e):
     st = E.st
     d = dotted(e.func)
     # 1. dropped sinks (arguments are not evaluated: A-LOG)
-    if d is not None and (d.startswith(LOG_SINK_PREFIXES) or d in LOG_SINK_NAMES):
+    if d is not None and d not in E.c.externals and (d.startswith(LOG_SINK_PREFIXES) or d in LOG_SINK_NAMES):
         return NONE
     if d is None and isinstance(e.func, ast.Attribute) and isinstance(e.func.value, ast.Call):
         inner = dotted(e.func.value.func)
@@ -1189,7 +1221,8 @@ def bind(E, fn, selfv, args, kwargs, mod):
     elif selfv is None and names and names[0] in ("self",) and len(pos) == len(names) - 1 + 0 and False:
         pass
     if "classmethod" in decos and (selfv is None):
-        pos = [V("fn", None, items=("class", "?", None, mod, None))] + pos
+        owner = next((c_ for (c_, _n), f_ in mod.methods.items() if f_ is fn and "." not in c_), "?") if mod is not None else "?"
+        pos = [V("fn", None, items=("class", owner, None, mod, None))] + pos  # cls = the class that defines the method (subclass dispatch is not modelled)
     if len(pos) > len(names) and not a.vararg:
         raise OutOfSubset(f"too many positional args for {fn.name}")
     for nm, v in zip(names, pos):
@@ -1344,10 +1377,12 @@ def call_by_contract(E, c, fn, mod, selfv, args, kwargs, node):
             st.vars = env
         # havoc
         mods = [E.ev_spec_value(x).z for x in c.modifies]
-        if mods or c.d.get("allocates") or c.modifies == "*" or c.d.get("emits"):
+        # a callee with event externals appends to the ghost trace (default; `emits` overrides)
+        emits_ = c.d.get("emits", any(isinstance(x, dict) and x.get("event") for x in c.externals.values()))
+        if mods or c.d.get("allocates") or c.modifies == "*" or emits_:
             for m_ in mods:
                 E.wframe(m_, f"call {c.qual}")
-            if "$trace" in st.vars and c.d.get("emits"):
+            if "$trace" in st.vars and emits_:
                 mods.append(st.vars["$trace"].z)
             nentry_ = st.nref
             st.nref = fresh("nref")
@@ -1966,6 +2001,17 @@ def str_method(E, recv, name, args, e):
         return r
     if name == "format":
         return format_uf(E, "fmtm:" + (recv.py if recv.py is not None else "?"), [recv] + list(args))
+    if name == "split" and len(args) == 1 and args[0].ty == "str" and not E.st.spec:
+        # s.split(sep): a fresh list whose length and items are uninterpreted functions of (s, sep); at least one item
+        n = z3.Function("str_split_len", I, I, I)(recv.z, args[0].z)
+        arr = z3.Function("str_split_arr", I, I, z3.ArraySort(I, I))(recv.z, args[0].z)
+        out = E.alloc_list("str")
+        E.st.heap.store("len", I, out.z, n)
+        E.st.heap.store(E.el_name("str"), z3.ArraySort(I, I), out.z, arr)
+        E.st.pc.append(n >= 1)
+        k_ = z3.Int("k!split")
+        E.st.pc.append(z3.ForAll([k_], arr[k_] >= 1))
+        return out
     if name == "join" and len(args) == 1:
         f = z3.Function("str_join", I, I, I)
         r = V("str", f(recv.z, args[0].z))
@@ -2129,6 +2175,18 @@ def spec_eva(E, e):
     return V(strip_opt(ty), z)
 
 
+def spec_split_item(E, e):
+    """split_item(s, sep, k): the k-th item of s.split(sep)"""
+    s_, sep, k = (E.ev(a) for a in e.args)
+    arr = z3.Function("str_split_arr", I, I, z3.ArraySort(I, I))(s_.z, sep.z)
+    return V("str", arr[E.to_int(k)])
+
+
+def spec_split_len(E, e):
+    s_, sep = (E.ev(a) for a in e.args)
+    return vint(z3.Function("str_split_len", I, I, I)(s_.z, sep.z))
+
+
 def spec_sel(E, e):
     base = E.ev(e.args[0])
     return get_item(E, base, E.ev(e.args[1]), None)
@@ -2178,6 +2236,11 @@ def spec_cast(E, e):
     return V(("obj", e.args[1].value), v.z)
 
 
+def spec_box(E, e):
+    """box(x): the scalar x as an untyped value (what a list of mixed values stores)"""
+    return E.coerce(E.ev(e.args[0]), "any")
+
+
 def spec_tag(E, e):
     return E.st.vars.get("$tag:" + e.args[0].value, vbool(False))
 
@@ -2209,12 +2272,15 @@ SPEC_FUNCS = {
     "evk": spec_evk,
     "eva": spec_eva,
     "sel": spec_sel,
+    "split_item": spec_split_item,
+    "split_len": spec_split_len,
     "has": spec_has,
     "lemma": spec_lemma,
     "tag": spec_tag,
     "clsname": spec_clsname,
     "clsof": spec_clsof,
     "cast": spec_cast,
+    "box": spec_box,
 }
 
 
